@@ -66,6 +66,7 @@ type crashSpec struct {
 	ExitOcc  int
 	Snap     bool // copy synced files (power-loss images)
 	Reopen   bool // the directory holds an earlier (crashed) session
+	Managed  bool // managed mode: every commit is a managed write batch of 3 entries with per-entry versions
 }
 
 type cwrite struct {
@@ -259,7 +260,12 @@ func crashChild(c *Ctx) error {
 	l.mu.Lock()
 	l.line("SESSION reopen=%v first=%d", s.Reopen, s.First)
 	l.mu.Unlock()
-	db, err := badger.Open(crashOptions(&s))
+	var db *badger.DB
+	if s.Managed {
+		db, err = badger.OpenManaged(crashOptions(&s))
+	} else {
+		db, err = badger.Open(crashOptions(&s))
+	}
 	if err != nil {
 		l.mu.Lock()
 		l.line("OPENERR %v", err)
@@ -282,7 +288,19 @@ func crashChild(c *Ctx) error {
 		l.line("ISSUE %d", i)
 		l.mu.Unlock()
 		var cerr error
-		if s.Batch {
+		if s.Managed {
+			// one write batch = one request of three entries carrying their own versions:
+			// txn.go commitAndSend writes such a request WITHOUT transaction markers
+			wb := db.NewManagedWriteBatch()
+			for j := 0; j < 3 && cerr == nil; j++ {
+				cerr = wb.SetEntryAt(badger.NewEntry([]byte(fmt.Sprintf("m%06d_%d", i, j)), []byte(fmt.Sprintf("v%06d", i))), uint64(10*i+j))
+			}
+			if cerr == nil {
+				cerr = wb.Flush()
+			} else {
+				wb.Cancel()
+			}
+		} else if s.Batch {
 			wb := db.NewWriteBatch()
 			for _, w := range ws {
 				if w.Val == "" {
@@ -365,10 +383,14 @@ func crashProbe(c *Ctx) error {
 		return err
 	}
 	var out probeOut
-	db, err := badger.Open(crashOptions(&s))
+	openf := badger.Open
+	if s.Managed {
+		openf = badger.OpenManaged
+	}
+	db, err := openf(crashOptions(&s))
 	if err != nil {
 		out.OpenErr = err.Error()
-		db2, err2 := badger.Open(crashOptions(&s))
+		db2, err2 := openf(crashOptions(&s))
 		if err2 != nil {
 			out.Open2Err = err2.Error()
 		} else {
@@ -381,7 +403,15 @@ func crashProbe(c *Ctx) error {
 	}
 	out.Gets = map[string]string{}
 	keys := map[string]bool{}
-	err = db.View(func(txn *badger.Txn) error {
+	view := db.View
+	if s.Managed {
+		view = func(fn func(txn *badger.Txn) error) error {
+			txn := db.NewTransactionAt(1<<62, false)
+			defer txn.Discard()
+			return fn(txn)
+		}
+	}
+	err = view(func(txn *badger.Txn) error {
 		it := txn.NewIterator(badger.IteratorOptions{AllVersions: true, PrefetchValues: false})
 		defer it.Close()
 		for it.Rewind(); it.Valid(); it.Next() {
@@ -406,7 +436,7 @@ func crashProbe(c *Ctx) error {
 	if err != nil {
 		out.OpenErr = "iterate: " + err.Error()
 	}
-	db.View(func(txn *badger.Txn) error {
+	view(func(txn *badger.Txn) error {
 		for k := range keys {
 			item, gerr := txn.Get([]byte(k))
 			switch {
@@ -1499,9 +1529,10 @@ func crashRunKill(c *Ctx, e *crashEnv, fixDir, fixZero bool) error {
 		emulate string
 	}
 	var jobs []job
-	jobs = append(jobs, job{0, 1, "emulate", 0, "wal-delete-window"}, job{1, 0, "emulate", 0, "wal-create-window"})
+	jobs = append(jobs, job{0, 1, "emulate", 0, "wal-delete-window"}, job{1, 0, "emulate", 0, "wal-create-window"},
+		job{2, 0, "managed-batch", 0, ""})
 	mechs := []string{"exit-hook", "exit-hit", "sigkill", "exit-hook", "exit-hit"}
-	for k := 2; k < c.N+2; k++ {
+	for k := 3; k < c.N+3; k++ {
 		jobs = append(jobs, job{k, []int{0, 1, 2, 3, 4, 0, 1}[c.Rng.Intn(7)], mechs[k%len(mechs)], c.Rng.Int63(), ""})
 	}
 	results := make([]crashResult, len(jobs))
@@ -1514,7 +1545,9 @@ func crashRunKill(c *Ctx, e *crashEnv, fixDir, fixZero bool) error {
 			defer func() { <-sem }()
 			rng := rand.New(rand.NewSource(j.seed))
 			wl := wls[j.wl]
-			if wl.two {
+			if j.mech == "managed-batch" {
+				results[ji] = e.managedJob(j.k)
+			} else if wl.two {
 				results[ji] = e.twoSessionJob(j.k, wl, j.mech, rng, refs[j.wl].hist, refs[j.wl].dur)
 			} else {
 				results[ji] = e.killJob(j.k, wl, j.mech, rng, refs[j.wl].hist, refs[j.wl].dur, fixDir, fixZero, j.emulate)
@@ -1948,4 +1981,52 @@ func crashDirsyncRepaired(evs []crashEvent) bool {
 		}
 	}
 	return ok && sawRot && sawFlush && sawVlog
+}
+
+
+// managed mode: a write batch whose entries carry their own versions (WriteBatch.SetEntryAt) is
+// one request written WITHOUT transaction markers (txn.go commitAndSend, keepTogether = false);
+// killed after its second WAL record, the batch is recovered partially
+func (e *crashEnv) managedJob(k int) crashResult {
+	r := crashResult{k: k, wl: "managed-batch", mech: "managed-batch", skipWhy: "managed batch without markers: outside the model (oracle only)"}
+	e2 := *e
+	dir := filepath.Join(e.scratch, fmt.Sprintf("k%d", k))
+	os.RemoveAll(dir)
+	os.MkdirAll(filepath.Join(dir, "db"), 0o755)
+	defer os.RemoveAll(dir)
+	e2.scratch = dir
+	s := crashSpec{Dir: filepath.Join(dir, "db"), EventLog: filepath.Join(dir, "ev.log"), SnapDir: dir, NCommits: 5, First: 1,
+		MemSize: 8 << 10, Managed: true, ExitName: "persist.wal.put", ExitOcc: 8}
+	r.desc = crashJ{"exit_hook": s.ExitName, "occurrence": s.ExitOcc, "note": "third batch, after its second of three WAL records"}
+	r.childR = e2.runChild(&s, 0)
+	evs := crashReadLog(s.EventLog)
+	r.nEvents = len(evs)
+	r.acked, r.issued = crashAcked(evs, 0)
+	r.po, r.perr = e2.probe(&s)
+	if r.po == nil {
+		r.sig, r.what = "harness-probe-died", r.perr
+		return r
+	}
+	if r.po.OpenErr != "" {
+		r.sig, r.what = crashOpenSig("C08", r.po.OpenErr), "Open after the crash: "+r.po.OpenErr
+		return r
+	}
+	cnt := map[int]int{}
+	for _, en := range r.po.Entries {
+		if ci := crashCommitOfValue(en.Val); ci > 0 {
+			cnt[ci]++
+		}
+	}
+	for ci := 1; ci <= r.issued; ci++ {
+		if cnt[ci] != 0 && cnt[ci] != 3 {
+			r.sig = "F26-managed-batch-without-txn-markers-partially-recovered"
+			r.what = fmt.Sprintf("managed write batch %d (3 entries with per-entry versions, one request): %d of 3 entries recovered", ci, cnt[ci])
+			return r
+		}
+		if cnt[ci] == 0 && ci <= r.acked {
+			r.sig, r.what = "c08-acked-commit-lost", fmt.Sprintf("managed batch %d was acknowledged and is missing", ci)
+			return r
+		}
+	}
+	return r
 }
